@@ -982,7 +982,7 @@ impl ASN1Value {
             resolved = Some(&tld.value);
             match &tld.value {
                 ASN1Value::ElsewhereDeclaredValue {
-                    module: None,
+                    module: _,
                     parent: None,
                     identifier: next,
                 } => {
